@@ -25,7 +25,8 @@ RowShaped(str) ==
 Verdict(e) ==
   LET a == e.argv
       o == e.obs
-  IN IF "sink" \in DOMAIN e /\ e.sink = "closed-pipe"
+  IN IF "timed_out" \in DOMAIN o /\ o.timed_out THEN "cli-run-did-not-finish"       \* (a conformant run takes seconds)
+     ELSE IF "sink" \in DOMAIN e /\ e.sink = "closed-pipe"
      THEN \* nobody reads the standard output: the wallet was not delivered, so the run has not succeeded
           (IF o.exit = 0 THEN "cli-zero-status-although-stdout-was-closed" ELSE "ok")
      ELSE IF o.exit # 0 /\ o.stdout \notin {"empty", "help"} THEN "cli-wallet-data-on-stdout-of-failed-run"
